@@ -18,6 +18,7 @@ import KVerif.Drv.C15
 import KVerif.Drv.C11 -- C11
 import KVerif.Drv.C06
 import KVerif.Drv.C08
+import KVerif.Drv.C09
 open KVerif.Drv
 
 /-- kvdrv <prop>: one case line in, one `M <model> ## S <spec>` line out. -/
@@ -51,6 +52,8 @@ def dispatch (prop : String) : Option (String → String × String) :=
   | "C06o" => some C06.runOracle
   | "C08" => some C08.run
   | "C08o" => some C08.runOracle
+  | "C09" => some C09.run
+  | "C09o" => some C09.runOracle
   | _ => none
 
 partial def loop (h : IO.FS.Stream) (out : IO.FS.Stream) (f : String → String × String) : IO Unit := do
